@@ -721,12 +721,16 @@ func runMT(run *ev.Run, c int) {
 	r.Snapshot = func(ctx sdk.Context) any { return w.snapshot(ctx) }
 	blocks := tierN(run.Tier, 300, 1500)
 	for b := 0; b < blocks; b++ {
+		restartFromOwnExport(run, r, c, b, blocks)
 		br := r.DeliverBlock(time.Second, w.Next(b))
 		if br.FinalErr != nil {
 			run.Inconc("FinalizeBlock failed: %v", br.FinalErr)
 			return
 		}
 		w.Observe(br)
+	}
+	if c%4 == 1 {
+		run.Require("restarted-from-own-export", 1)
 	}
 	for _, n := range []string{"mt-mint-new-ok", "mt-mint-existing-ok", "mt-transfer-ok", "mt-burn-ok", "mt-edit-ok", "mt-transfer-class-ok", "hostile-mint-rejected", "hostile-transfer-rejected", "hostile-burn-rejected", "hostile-edit-rejected", "hostile-handover-rejected", "overflow-mint-rejected"} {
 		run.Require(n, 1)
